@@ -4,7 +4,7 @@ import sys, subprocess, re, os
 fam, checker = sys.argv[1], sys.argv[2]
 seed = sys.argv[3] if len(sys.argv) > 3 else "1"
 out = subprocess.run(["/verif/harness/target/debug/conn"], env=dict(os.environ, VERIF_SEED=seed, VERIF_FAMILIES=fam), stdout=subprocess.PIPE).stdout.decode()
-cases = [l.split(" ", 2)[2] for l in out.split("\n") if l.startswith("CASE ")]
+cases = [l.split(" ", 2)[2] for l in out.split("\n") if l.startswith("CASE ") and "cc_cfg" in l]
 os.makedirs("/tmp/dbg", exist_ok=True)
 with open("/tmp/dbg/t.v", "w") as f:
     f.write("From Passage Require Import Lib.Bytes Codec.Desc Conn.Types Conn.Prog Conn.Sem1 Run.CaseConn.\nLocal Open Scope Z_scope.\nSet Printing Depth 100000. Set Printing Width 200.\n")
